@@ -303,9 +303,10 @@ macro_rules! text_layer_shape {
                     };
                     kani::assert(unsafe { T_KIND } == kind && unsafe { T_ARG } == arg && unsafe { T_N } == en, "VERIF BigUint::from_str_radix: wrong back end / argument / digit count");
                     let k: usize = kani::any();
-                    kani::assume(k < en);
-                    let want = if kind == 3 { ev[k] } else { ev[en - 1 - k] };
-                    kani::assert(unsafe { T_V }[k] == want, "VERIF BigUint::from_str_radix: digit vector handed to the back end differs from the text");
+                    if k < en {
+                        let want = if kind == 3 { ev[k] } else { ev[en - 1 - k] };
+                        kani::assert(unsafe { T_V }[k] == want, "VERIF BigUint::from_str_radix: digit vector handed to the back end differs from the text");
+                    }
                 }
             }
             if $n > 0 {
